@@ -31,6 +31,8 @@ if HARNESS is None:
     ck.broken_ties.append({"kind": "harness-compile", "name": "c10_harness", "log": ck.last_cc_log[-1500:]})
     ck.finish()
 DRV = os.path.join(VERIF, "lean", ".lake", "build", "bin", "mirdrv_c10")
+if not os.path.exists(DRV):          # the proof gate already recorded why the build failed
+    ck.finish()
 
 # conjuncts of WF -> how a failure of the real code at that point is classified
 FINDINGS = {"uint-ge-2^63", "str-no-nul", "blk-size-ge-2^32", "data-type-p", "label-before-endfunc",
@@ -46,7 +48,7 @@ stats = {"gen_cases": 0, "gen_miss": 0, "wf_ok": 0, "wf_ok_roundtrip": 0, "print
          "freeform": 0, "freeform_agree": 0, "mutants_text": 0, "mutants_text_agree": 0,
          "mutants_text_semantic": 0, "mutants_text_impl_crash": 0, "corpus_files": 0, "corpus_fixpoint": 0,
          "corpus_model_agree": 0, "float_fmt": 0, "float_parse": 0, "opcodes_seen": {}, "item_kinds": {},
-         "operand_kinds": {}, "error_kinds": {}}
+         "operand_kinds": {}, "error_kinds": {}, "corpus_nonfinite_float": 0}
 distinct = set()
 
 
@@ -677,10 +679,8 @@ def corpus_texts(rng):
         for r in ex.map(one, cfiles):
             if r is not None and b"\0" not in r[1]:
                 texts.append(r)
-    try:
-        os.rmdir(tmp)
-    except OSError:
-        pass
+    import shutil
+    shutil.rmtree(tmp, ignore_errors=True)
     return texts
 
 
@@ -697,6 +697,12 @@ def run_corpus(rng):
         if "ok" not in a:
             err = a.get("err", a.get("crash", "?"))
             bump(rejected, err[:80])
+            parts = [x for x in err.split("|") if x.strip()]
+            if parts and all(re.match(r"^(err )?(syntax )?ln \d+: (undeclared name -?(nan|inf)[fL]?|no number after a sign -)$", x.strip())
+                             for x in parts):
+                # c2m wrote a non-finite floating constant (`inff`, `nanL`, …): outside the property (finite values)
+                bump(stats, "corpus_nonfinite_float")
+                continue
             if "crash" in a:
                 # accepted by the scanner (no error line) but the library died while re-writing the module
                 is_expr = re.search(rb"(^|[\s:;])expr[ \t]", t) is not None
